@@ -574,16 +574,20 @@ def check_C01(tier):
                 procs=[dict(name="s", kind="src", paths=["da/x.txt", "db/x.txt"]),
                        dict(name="a", kind="cmd", ins=["in"], outs=["out"], outpaths={"out": "o/{i:in|dirname}.res.txt"})],
                 edges=[zoo.E("s.out", "a.in")], mkdirs=["da", "db"], ctl={"a:x@da.sleep": "0.1", "a:x@db.sleep": "0.8"})
+    # the same with a 2-core blocker that may hold both slots while the twins are created (both pass the leftover check before either creates its temp dir)
+    twinb = dict(twin, name="TWB", procs=twin["procs"] + [zoo.src("h", ["hold"]), zoo.cmd("hold", ["in"], ["out"], cores=2)],
+                 edges=twin["edges"] + [zoo.E("h.out", "hold.in")], ctl=dict(twin["ctl"], **{"hold.sleep": "0.5"}))
     def twin_run(k):
         d = scratch("twin")
+        inst = twinb if k % 3 == 2 else twin
         try:
-            prepare_dir(twin, d)
+            prepare_dir(inst, d)
             for sub in ("da", "db"):
                 open(os.path.join(d, sub, "x.txt"), "w").write("SRC %s\n" % sub)
-            return fs.run_real_watch(twin, d, [os.path.join(d, "o/da.res.txt"), os.path.join(d, "o/db.res.txt")], env={"VERIF_JITTER": str(k)}, timeout=30)
+            return fs.run_real_watch(inst, d, [os.path.join(d, "o/da.res.txt"), os.path.join(d, "o/db.res.txt")], env={"VERIF_JITTER": str(k)} if k % 2 else {}, timeout=30)
         finally:
             rmtree(d)
-    for obs in pmap(twin_run, range(6 if thorough else 3), workers=3):
+    for obs in pmap(twin_run, range(12 if thorough else 6), workers=3):
         chk.evaluations += 1
         bad = [(w, o) for w, o in list(obs["first_sight"].items()) + list(obs["at_exit"].items()) if not o["complete"]]
         if bad:
